@@ -699,42 +699,90 @@ def _run_pets(env, st, cfg, buffer, logger, extras, capture):
 # -- on-policy, single env ---------------------------------------------------
 
 def _run_sample_trajectories(env, st, cfg, logger, extras, capture):
-    """cfg: total_steps, train_after_episode, seed (key), n_calls (consecutive collections)."""
+    """cfg: total_steps, train_after_episode, seed (key), n_calls (consecutive collections).
+
+    extras["datasets"]: the returned EpisodeDatasets; extras["dataset_steps"]: [first, last + 1) env step
+    indices of each collection (read from the env's own step counter, not from the dataset)."""
     import jax
 
     from rl_blox.algorithm.reinforce import sample_trajectories
 
     key = jax.random.key(int(cfg.get("seed", 0)))
     out = []
+    spans = extras.setdefault("dataset_steps", [])
     for _ in range(int(cfg.get("n_calls", 1))):
         key, sk = jax.random.split(key)
+        lo = int(env.n_steps)
         out.append(sample_trajectories(env, st["policy"], sk, logger, bool(cfg.get("train_after_episode", False)),
                                        int(cfg["total_steps"])))
+        spans.append([lo, int(env.n_steps)])
     extras["datasets"] = out
     return out
 
 
+# positional parameter names of the module-level update callables of train_reinforce / train_ac
+_PG_UPDATE_FIELDS = {
+    "train_policy_reinforce": ("policy", "policy_optimizer", "policy_gradient_steps", "value_function",
+                               "observations", "actions", "returns", "gamma_discount"),
+    "train_policy_actor_critic": ("policy", "policy_optimizer", "policy_gradient_steps", "value_function",
+                                  "observations", "actions", "next_observations", "rewards", "gamma_discount",
+                                  "gamma"),
+    "train_value_function": ("value_function", "value_function_optimizer", "value_gradient_steps",
+                             "observations", "returns"),
+}
+_PG_UPDATE_ARRAYS = ("observations", "actions", "next_observations", "rewards", "returns", "gamma_discount")
+
+
 def _run_reinforce_like(name):
     def run(env, st, cfg, logger, extras, capture):
+        """extras["datasets"] / extras["dataset_steps"] as for sample_trajectories;
+        extras["update_calls"]: what the routine handed to its module-level update callables
+        ({"fn", "n_steps" (env steps executed when called), "gamma" (if passed), arrays as numpy copies})."""
         import importlib
 
         mod = importlib.import_module("rl_blox.algorithm." + name)
         fn = getattr(mod, {"reinforce": "train_reinforce", "actor_critic": "train_ac"}[name])
         datasets = extras.setdefault("datasets", [])
+        spans = extras.setdefault("dataset_steps", [])
+        updates = extras.setdefault("update_calls", [])
 
         def wrap(orig):
             def sample_trajectories(*a, **k):
+                lo = int(env.n_steps)
                 d = orig(*a, **k)
                 datasets.append(d)
+                spans.append([lo, int(env.n_steps)])
                 return d
             return sample_trajectories
+
+        def wrap_update(fname):
+            fields = _PG_UPDATE_FIELDS[fname]
+
+            def make(orig):
+                def update(*a, **k):
+                    named = dict(zip(fields, a, strict=False))
+                    named.update(k)
+                    rec = {"fn": fname, "n_steps": int(env.n_steps)}
+                    for f in _PG_UPDATE_ARRAYS:
+                        if f in named and named[f] is not None:
+                            rec[f] = np.array(named[f])
+                    if "gamma" in named:
+                        rec["gamma"] = float(named["gamma"])
+                    updates.append(rec)
+                    return orig(*a, **k)
+                return update
+            return make
 
         kw = {"total_timesteps": int(cfg["total_timesteps"]), "seed": int(cfg.get("seed", 0)),
               "progress_bar": False}
         kw.update(_pick(cfg, ["steps_per_update", "train_after_episode", "gamma", "policy_gradient_steps",
                               "value_gradient_steps"]))
-        ctx = patched(mod, "sample_trajectories", wrap) if capture else contextlib.nullcontext()
-        with ctx:
+        policy_update = {"reinforce": "train_policy_reinforce", "actor_critic": "train_policy_actor_critic"}[name]
+        with contextlib.ExitStack() as es:
+            if capture:
+                es.enter_context(patched(mod, "sample_trajectories", wrap))
+                es.enter_context(patched(mod, policy_update, wrap_update(policy_update)))
+                es.enter_context(patched(mod, "train_value_function", wrap_update("train_value_function")))
             return fn(env, st["policy"], st["policy_optimizer"], st["value_function"],
                       st["value_function_optimizer"], logger=logger, **kw)
     return run
